@@ -553,7 +553,9 @@ def _str_value(opt, src):
     if opt in ("logging_file", "payload", "remove_file", "tags_file", "redaction_file",
                "content_redaction_file", "egg_path", "egg_gpg_path"):
         return st.builds(lambda t: "@T@/%s_%s%s" % (opt, low, t), _tail)
-    base = st.builds(lambda t: mark + "9" + t, _tail)
+    # (passwords and proxy URLs carry percent signs: "p%ssw0rd", "user%40corp"; the file is read raw)
+    pct = st.sampled_from(["", "", "", "%", "%40x", "%%", "%(a)s", "100%", "%s"])
+    base = st.builds(lambda t, p: mark + "9" + t + p, _tail, pct)
     if opt in SAFE_EMPTY and src != "cli":
         return st.integers(0, 5).flatmap(lambda w: st.just("") if w == 0 else base)
     return base
